@@ -35,7 +35,7 @@ def gen(chk, name, c, timeout=900):
         k = repr((v["l"], v["age"]))
         if k not in seen:
             seen.add(k); out.append(v)
-    res = vkit.tlc("Gai", cfg, print_sink=sink, timeout=timeout, workers=8)
+    res = vkit.tlc("Gai", cfg, print_sink=sink, timeout=timeout, workers=4)
     chk.add_tlc(name, res)
     if not out:
         raise vkit.InfraError("generator %s produced nothing\n%s" % (name, res.raw[-1500:]))
